@@ -677,8 +677,12 @@ pub struct GenCfg {
     pub untracked_eighths: usize,
     /// allow `.untracked()` / `.tracked()` on intermediates and start/stop_tracking on earlier handles
     pub toggles: bool,
-    /// bias operand choice towards recent nodes (deeper programs) vs. uniform (more sharing)
+    /// only user-defined operations (every node observable through its derivative closure)
     pub all_custom: bool,
+    /// all leaves have the same shape
+    pub uniform_shape: bool,
+    /// leaf data in {-1,0,1}
+    pub unit_values: bool,
 }
 
 impl GenCfg {
@@ -696,6 +700,8 @@ impl GenCfg {
             untracked_eighths: 2,
             toggles: false,
             all_custom: false,
+            uniform_shape: false,
+            unit_values: false,
         }
     }
     pub fn smooth() -> GenCfg {
@@ -703,11 +709,11 @@ impl GenCfg {
     }
 }
 
-struct GenState {
-    p: Program,
-    refv: Vec<T<f64>>,
-    shadow: Vec<f64>,
-    flags: Vec<bool>,
+pub struct GenState {
+    pub p: Program,
+    pub refv: Vec<T<f64>>,
+    pub shadow: Vec<f64>,
+    pub flags: Vec<bool>,
 }
 
 fn in_range(t: &T<f64>, lo: f64, hi: f64) -> bool {
@@ -716,7 +722,7 @@ fn in_range(t: &T<f64>, lo: f64, hi: f64) -> bool {
 
 /// Generate a random straight-line DAG program. Operands are chosen among all earlier nodes with replacement, so
 /// fan-out, diamonds and x∘x self-use are the norm. Domain restrictions are decided from actual reference values.
-pub fn gen_program(r: &mut Rng, cfg: &GenCfg) -> Program {
+pub fn gen_leaves(r: &mut Rng, cfg: &GenCfg) -> GenState {
     let base_rank = r.range(1, cfg.max_rank);
     let base: Vec<usize> = (0..base_rank).map(|_| r.range(1, cfg.max_dim)).collect();
     let nleaf = r.range(1, cfg.max_leaves);
@@ -724,9 +730,15 @@ pub fn gen_program(r: &mut Rng, cfg: &GenCfg) -> Program {
     let mut any_tracked = false;
     for li in 0..nleaf {
         let rank = r.range(1, base.len());
-        let dims: Vec<usize> = base[base.len() - rank..].iter().map(|x| if r.chance(1, 4) { 1 } else { *x }).collect();
+        let dims: Vec<usize> = if cfg.uniform_shape {
+            base.clone()
+        } else {
+            base[base.len() - rank..].iter().map(|x| if r.chance(1, 4) { 1 } else { *x }).collect()
+        };
         let n = numel(&dims);
-        let vals: Vec<f64> = if cfg.exact_only || r.chance(1, 3) {
+        let vals: Vec<f64> = if cfg.unit_values {
+            (0..n).map(|_| r.int(-1, 1)).collect()
+        } else if cfg.exact_only || r.chance(1, 3) {
             (0..n).map(|_| r.int(-3, 3)).collect()
         } else if r.chance(1, 2) {
             (0..n).map(|_| 0.25 * (1 + r.below(16)) as f64).collect()
@@ -743,6 +755,11 @@ pub fn gen_program(r: &mut Rng, cfg: &GenCfg) -> Program {
         st.refv.push(T::from_f64(&dims, &vals));
         st.flags.push(tracked);
     }
+    st
+}
+
+pub fn gen_program(r: &mut Rng, cfg: &GenCfg) -> Program {
+    let mut st = gen_leaves(r, cfg);
     let nops = r.range(cfg.min_ops, cfg.max_ops);
     let mut attempts = 0;
     while st.p.n_ops() < nops && attempts < nops * 30 {
@@ -806,7 +823,7 @@ fn pick_operand(r: &mut Rng, n: usize) -> usize {
     }
 }
 
-fn try_add_op(r: &mut Rng, cfg: &GenCfg, st: &mut GenState) {
+pub fn try_add_op(r: &mut Rng, cfg: &GenCfg, st: &mut GenState) {
     let n = st.p.nodes.len();
     let a = pick_operand(r, n);
     let b = if r.chance(1, 5) { a } else { pick_operand(r, n) };
